@@ -628,6 +628,16 @@ func c15(r *core.Report) {
 			r.Check(valid[pr], "C15-REGISTERED", core.FnName(fn), p.Pos(ci.Pos()), fmt.Sprintf("registered pair %v", pr), fmt.Sprintf("mux constructed with the unregistered pair %v: frames written by one side are not what the other side parses", pr))
 		}
 	}
+
+	// ---- C15-LOAN-COMMIT / C15-LOAN-DONE (C13's commit-shape and done-after-callback rules, shared after
+	// seed C15-s7): the mux delivers out of the transport's receive buffer, inside the transport's callback,
+	// through the channel's hub. If the hub's Deliver can return before the channel's callback has finished
+	// (e.g. on the hub's closed signal) the transport recycles the buffer and the next frame — for any other
+	// channel — is written under the first channel's callback: one channel sees another channel's bytes.
+	r.Rule("C15-LOAN-COMMIT", "hub Deliver returns only after the completion wait that follows the rendezvous send (the mux lends the transport's buffer across channels)", 8)
+	ruleCommit(r, h, "C15-LOAN-COMMIT")
+	r.Rule("C15-LOAN-DONE", "hub Receive/ServeAsk signal completion only after the callback returned", 9)
+	ruleDoneAfterCallback(r, h, "C15-LOAN-DONE")
 }
 
 func isLenCall(v ssa.Value) bool {
